@@ -85,9 +85,8 @@ impl<'a> An<'a> {
                 }
                 for j in i + 1..parts.len() {
                     let (r, line) = &parts[j];
-                    if !r.lookahead {
-                        self.check(owner, l, r, *line);
-                    }
+                    // a lookahead decides on what comes next just like a consuming parser: it has to see through trivia too
+                    self.check(owner, l, r, *line);
                     if !(r.nullable || r.lookahead) {
                         break;
                     }
